@@ -305,8 +305,9 @@ def check_export(snap, rel, version, tol_pos, tol_rot, names=(True, True)):
 def check_import(df, rel, version, pixel_size, tol_pos=TOL_POS_MEM, tol_rot=TOL_ROT_MEM):
     """Clauses of the import direction.  df = resulting particle table; rel = the RELION columns that were given
     (float arrays / name lists; absent columns are simply not in the dict).
-    -> (witness or None, half-set info): info = None | {"single": value, "ok": bool, "witness": ...} when
-    rlnRandomSubset holds one distinct value (judged separately)."""
+    -> (witness or None, half-set info): info = None | {"single": value, "ok": bool, ...} when rlnRandomSubset holds
+    one distinct value (N = 1, one-half files): the parity clause is judged like any other, info lets the caller
+    count that such inputs were evaluated."""
     tomo_col, sub_col, origin, _, angst = version_names(version)
     n = len(rel[COORD[0]])
     g = lambda c: np.asarray(df[c].to_numpy(), dtype=float)
@@ -367,11 +368,10 @@ def check_import(df, rel, version, pixel_size, tol_pos=TOL_POS_MEM, tol_rot=TOL_
                 w = _vec_mismatch("subtomo_id odd/even = rlnRandomSubset 1/2", np.mod(ids, 2), exp_par, 0.0, 0.0)
                 if w:
                     w.update({"subtomo_id": float(ids[w["row"]]), "rlnRandomSubset": float(hs[w["row"]])})
-                if len(vals) == 2:
-                    if w:
-                        return w, None
-                else:
-                    info = {"single": float(hs[0]), "ok": w is None, "witness": w}
+                if len(vals) == 1:
+                    info = {"single": float(hs[0]), "ok": w is None, "witness": w, "particles": n}
+                if w:
+                    return w, info
     return None, info
 
 
